@@ -207,6 +207,42 @@ fn check_collect(c: &CCase, obs: &mut Obs) -> CheckResult {
     if o.len() != n || o2.len() != n {
         return fail("collect_vec1_opt:len", "length");
     }
+    // the same collector from sources whose size hint is only an upper bound (filter, take_while, flat_map)
+    let keep = |v: &Option<f64>| v.map(|x| (x as i64).rem_euclid(3) != 0).unwrap_or(true);
+    let want: Vec<Option<f64>> = c.items.iter().map(|v| v.map(|x| x as f64)).filter(keep).collect();
+    let opt_same = |what: &str, got: Vec<f64>| -> CheckResult {
+        if got.len() != want.len() || got.iter().zip(want.iter()).any(|(g, w)| match w {
+            None => !g.is_nan(),
+            Some(w) => g != w,
+        }) {
+            return fail(format!("collect_vec1_opt:{}", what), format!("collect_vec1_opt from a {} source: {:?}, expected {:?}", what, got, want));
+        }
+        Ok(())
+    };
+    let src = || c.items.iter().map(|v| v.map(|x| x as f64));
+    let g: Vec<f64> = src().filter(keep).collect_vec1_opt();
+    opt_same("filter<Vec>", g)?;
+    let g: VecDeque<f64> = src().filter(keep).collect_vec1_opt();
+    opt_same("filter<VecDeque>", g.into_iter().collect())?;
+    let g: Array1<f64> = src().filter(keep).collect_vec1_opt();
+    opt_same("filter<Array1>", g.to_vec())?;
+    let g: Vec<f64> = src().flat_map(|v| if keep(&v) { Some(v) } else { None }).collect_vec1_opt();
+    opt_same("flat_map<Vec>", g)?;
+    let cut = c.err1.unwrap_or(n / 2);
+    let g: Vec<f64> = src().enumerate().take_while(|(i, _)| *i < cut).map(|(_, v)| v).collect_vec1_opt();
+    let w2: Vec<Option<f64>> = src().take(cut).collect();
+    if g.len() != w2.len() || g.iter().zip(w2.iter()).any(|(g, w)| w.map_or(!g.is_nan(), |w| *g != w)) {
+        return fail("collect_vec1_opt:take_while<Vec>", format!("collect_vec1_opt from a take_while source: {:?}, expected {:?}", g, w2));
+    }
+    // and the plain collector from such sources
+    let g: Vec<i32> = plain.iter().cloned().filter(|v| v % 3 != 0).collect_vec1();
+    if g != plain.iter().cloned().filter(|v| v % 3 != 0).collect::<Vec<i32>>() {
+        return fail("collect_vec1:filter<Vec>", format!("collect_vec1 from a filter source: {:?}", g));
+    }
+    let g: Array1<i32> = plain.iter().cloned().filter(|v| v % 3 != 0).collect_vec1();
+    if g.to_vec() != plain.iter().cloned().filter(|v| v % 3 != 0).collect::<Vec<i32>>() {
+        return fail("collect_vec1:filter<Array1>", format!("collect_vec1 from a filter source: {:?}", g));
+    }
     // fallible collection: first error wins
     let mk = || -> Vec<TResult<i32>> {
         plain
